@@ -72,6 +72,44 @@ static void check_body(const std::string& body, vr::Ctx& ctx) {
       if (!d.empty()) ctx.violation("decode_mismatch", "root_decode_mismatch", lit, "root context: %s", d.c_str());
     }
   }
+  // context 5: the literal is the VALUE that ParseOnDemand extracts (member value, array element, nested): the
+  // document produced must be the decoded string exactly when the literal is valid, an error otherwise
+  {
+    static const char* pre[3] = {"{\"k\":", "[0,", "{\"a\":[{\"k\":"};
+    static const char* post[3] = {",\"z\":1}", ",2]", "}]}"};
+    // (a body whose quote structure does not end exactly at its last byte - an unescaped quote inside, or a trailing
+    // backslash that swallows the closing quote - has a different extent inside a larger text: skipped)
+    bool extent_ok = true;
+    for (size_t i = 0; i < body.size(); i++) {
+      if (body[i] == '\\') {
+        if (i + 1 >= body.size()) extent_ok = false;
+        i++;
+      } else if (body[i] == '"')
+        extent_ok = false;
+    }
+    for (int w = 0; w < 3 && extent_ok; w++) {
+      std::string text = std::string(pre[w]) + lit + post[w];
+      ExactBuf b(text);
+      JsonPointer jp = w == 0 ? JsonPointer({JsonPointerNode("k")}) : w == 1 ? JsonPointer({JsonPointerNode(1)}) : JsonPointer({JsonPointerNode("a"), JsonPointerNode(0), JsonPointerNode("k")});
+      Document od;
+      od.ParseOnDemand(b.p, b.n, jp);
+      if (!od.HasParseError() != rl.ok) {
+        ctx.violation("accept_mismatch", rl.ok ? "ondemand_value_rejects_valid" : "ondemand_value_accepts_invalid", text, "ParseOnDemand of the literal as a value: impl %s (code %d) reference %s", od.HasParseError() ? "rejects" : "accepts",
+                      (int)od.GetParseError(), rl.ok ? "accepts" : "rejects");
+        break;
+      }
+      if (rl.ok) {
+        std::string d = sc::compare(od, rl.v);
+        if (!d.empty()) {
+          ctx.violation("decode_mismatch", "ondemand_value_decode_mismatch", text, "ParseOnDemand of the literal as a value: %s", d.c_str());
+          break;
+        }
+      } else if (!od.IsNull()) {
+        ctx.violation("failure_state", "failure_state", text, "failed ParseOnDemand left a non-null document");
+        break;
+      }
+    }
+  }
   // context 2: key of an object; context 3: on-demand key
   {
     std::string text = "{" + lit + ":1,\"zz-other\":[2]}";
